@@ -83,4 +83,9 @@ def obligations(tier):
                       timeout=300, family="keypair",
                       desc="X25519 key pair generators: sk == 32 source bytes, pk == X25519_base(sk)",
                       bounds="all source byte values"))
+    SU = ["crypto_sign/ed25519/ref10/keypair.c", "crypto_sign/ed25519/sign_ed25519.c", "crypto_sign/crypto_sign.c", "sodium/utils.c", "crypto_verify/verify.c"]
+    for w, nm in ((0, "crypto_sign_ed25519_keypair"), (1, "crypto_sign_keypair")):
+        obs.append(Ob("keypair-" + nm, "C18/sign_keypair.c", units=SU, stubs=["ideal_hash.c", "ideal_ed25519.c", "rng.c", "misuse.c", "libc.c", "x86_builtins.c"],
+                      defs={"WHICH": w}, unwind=80, timeout=300, family="keypair",
+                      desc="Ed25519 key pair generators: seed == 32 source bytes, (pk, sk) == seed_keypair(seed)", bounds="all source byte values"))
     return obs
